@@ -54,6 +54,7 @@ fn main() {
                 "C10" => props::c10::run(tier),
                 "C11" => props::c11::run(tier),
                 "C12" => props::c12::run(tier),
+                "C13" => props::c13::run(tier),
                 "C14" => props::c14::run(tier),
                 "C17" => props::c17::run(tier),
                 _ => {
